@@ -18,7 +18,7 @@
 From Coq Require Import String Permutation.
 From PV Require Import Base.Bytes Base.Res Base.PyStr Model.CodecFloat Model.Path Model.LogixPlan Model.LogixWrite.
 From PV Require Import Spec.EncapParser Spec.MRParser Spec.TargetIface Spec.TargetCore Spec.Project Spec.Expect Spec.TargetLogix.
-From PV Require Import Proofs.PlanP Proofs.TargetLogixP Proofs.WriteBits Proofs.WriteEnc Proofs.WriteMsg Proofs.WritePlan Proofs.WriteCorrect Proofs.WriteFull Proofs.WriteBools Proofs.WriteCall Proofs.WriteStruct.
+From PV Require Import Proofs.PlanP Proofs.TargetLogixP Proofs.WriteBits Proofs.WriteEnc Proofs.WriteMsg Proofs.WritePlan Proofs.WriteCorrect Proofs.WriteFull Proofs.WriteBools Proofs.WriteCall Proofs.WriteStruct Proofs.WriteMore.
 Open Scope Z_scope.
 
 (* ================================================================ rmw_effect *)
@@ -300,13 +300,64 @@ Proof. exact write_correct_bool_element. Qed.
 Print Assumptions C02_bool_element_holds.
 
 (* a whole structure given as a dict: visible members at their offsets (nested structures, strings,
-   arrays of them, by induction over template nesting), BOOL members in the bits of their hidden host
-   bytes, hidden members and padding zero — for the class Proofs/WriteStruct.ty_guard; the statement is
-   Proofs/WriteStruct.stmt_struct *)
+   BOOL[32k] members as DWORDs, arrays of them, by induction over template nesting), BOOL members in the
+   bits of their host bytes — hidden hosts, or a VISIBLE host listed before them (module-defined types:
+   host and bits are then both in the dict; the bits are set after the host is stored, by the code's
+   "all members, then all bit members" exactly as by the reference's member order) —, hidden members
+   and padding zero: for the class Proofs/WriteStruct.ty_guard; statement Proofs/WriteStruct.stmt_struct *)
 Definition C02_struct : Prop := stmt_struct.
 Theorem C02_struct_holds : C02_struct.
 Proof. exact write_correct_struct. Qed.
 Print Assumptions C02_struct_holds.
+
+(* a structure (or string) given as BYTES: passed through unchanged, stored by Write Tag; when the bytes
+   are the reference encoding of a value the memory is ref_write's *)
+Definition C02_struct_bytes : Prop :=
+  forall p m r inst off tid dims avail t b rv m_ref img id tag ty tname inst_id ui seq path,
+  resolve p r = Some (PlData inst off (BStruct tid) dims avail) -> r_bit r = None -> r_count r = None ->
+  mem_get m inst = Some img ->
+  find_template (p_templates p) tid = Some t -> 0 <= t_handle t < 65536 ->
+  encode_val (depth_fuel p) p (BStruct tid) rv = Some b ->
+  ref_write p m r rv = Some m_ref ->
+  1 <= avail -> 0 <= seq < 65536 ->
+  let info := mkInfo true tname ty (t_handle t) inst_id in
+  let q := mkParsed id false tag None 1 None info (PBytes b) in
+  let l := mkWLoc inst off (BStruct tid) dims avail None in
+  path_of tag info ui = Ok (Some path) ->
+  exists pk pk1,
+    encode_value q = Ok (b, 1)
+    /\ new_write_packet KWrite seq tag 1 info id ui 0 b = Ok pk
+    /\ build_message pk = Ok pk1
+    /\ k_message pk1 = le_enc 2 seq ++ [77] ++ path ++ write_data (160 :: 2 :: le_enc 2 (t_handle t)) 1 b
+    /\ svc_write p m img l (write_data (160 :: 2 :: le_enc 2 (t_handle t)) 1 b) = (m_ref, mr_ok [], [EvApp 1 [inst; off; 77] b]).
+Theorem C02_struct_bytes_holds : C02_struct_bytes.
+Proof. exact write_correct_struct_bytes. Qed.
+Print Assumptions C02_struct_bytes_holds.
+
+(* `{n}` consecutive elements of an array of structures / strings (element type in the class of
+   C02_struct), longer lists truncated *)
+Definition C02_slice : Prop :=
+  forall p m r inst off tid dims avail t e l_py vs n m_ref img id tag n0 inst_id ui seq path,
+  ty_guard (depth_fuel p) p (BStruct tid) = true -> wty_of (depth_fuel p) p (BStruct tid) = Some e ->
+  resolve p r = Some (PlData inst off (BStruct tid) dims avail) -> r_bit r = None -> r_count r = Some n ->
+  mem_get m inst = Some img ->
+  find_template (p_templates p) tid = Some t -> 0 <= t_handle t < 65536 -> PyStr.text_eqb (t_name t) n_DWORD = false ->
+  Forall2 denotes l_py vs ->
+  ref_write p m r (RList vs) = Some m_ref ->
+  1 < n < 65536 -> 0 <= seq < 65536 ->
+  let info := mkInfo true (t_name t) (WArray n0 e) (t_handle t) inst_id in
+  let q := mkParsed id false tag None n None info (PList l_py) in
+  let l := mkWLoc inst off (BStruct tid) dims avail None in
+  path_of tag info ui = Ok (Some path) ->
+  exists data pk pk1,
+    encode_value q = Ok (data, n)
+    /\ new_write_packet KWrite seq tag n info id ui 0 data = Ok pk
+    /\ build_message pk = Ok pk1
+    /\ k_message pk1 = le_enc 2 seq ++ [77] ++ path ++ write_data (160 :: 2 :: le_enc 2 (t_handle t)) n data
+    /\ svc_write p m img l (write_data (160 :: 2 :: le_enc 2 (t_handle t)) n data) = (m_ref, mr_ok [], [EvApp 1 [inst; off; 77] data]).
+Theorem C02_slice_holds : C02_slice.
+Proof. exact write_correct_slice. Qed.
+Print Assumptions C02_slice_holds.
 
 (* ================================================================ the whole call *)
 (* A multi-service packet as MultiServiceRequestPacket.build_message emits it, handed to the target's
@@ -358,7 +409,7 @@ Print Assumptions C02_frag_transfer_holds.
 Definition C02_proved : Prop :=
   C02_rmw_effect /\ C02_encode_value /\ C02_build_once /\ C02_layout /\ C02_fragments /\ C02_applied_once
   /\ C02_value /\ C02_array /\ C02_string /\ C02_bool /\ C02_bits /\ C02_bools /\ C02_bool_element /\ C02_frame
-  /\ C02_multi /\ C02_cap_indep /\ C02_frag_transfer /\ C02_struct.
+  /\ C02_multi /\ C02_cap_indep /\ C02_frag_transfer /\ C02_struct /\ C02_struct_bytes /\ C02_slice.
 
 (* a one-element slice of a BOOL array `arr[i]{1}` written with a one-item list, whatever the item
    (refuted before pycomm3 4698d97: set_bit tested the truthiness of the LIST) *)
@@ -372,17 +423,28 @@ Print Assumptions C02_bool_slice1_holds.
 Definition C02_full : Prop :=
   C02_proved /\ C02_bool_slice1 /\ stmt_struct_with (fun p _ => wf_project p = true).
 
-(* PARTIAL: C02_partial (+ C02_bool_slice1_holds).  What C02_full asks beyond it:
-   whole structures outside the class of C02_struct: BOOL-array (DWORD) members, BOOL members that
-   overlay a VISIBLE host member (module-defined types; equal only when the host precedes its bits),
-   hidden BOOL members; `{n}` slices of arrays of structures / strings at top level (C02_array is for
-   elementary elements; elements of such arrays INSIDE a structure are covered by C02_struct);
-   structures given as bytes (passed through by C02_encode_value, stored by the same service: not composed).
-   Entering as hypotheses (other properties): the request path the driver emits resolves on the target
-   to the wire location of the reference place (C09 + C01/C03 parsing), the connected-transport layer
-   hands the connected data item to the message router (C11, C14), a REAL value is the binary64 whose
-   rounding is the reference binary32 (C06/C07 floats).
-   All of these are exercised on the implementation by the oracle of harness/props/c02.py on every run. *)
+(* PARTIAL: C02_partial (+ C02_bool_slice1_holds) is everything C02_full asks EXCEPT the struct clause for
+   templates outside Proofs/WriteStruct.ty_guard, i.e. exactly:
+     - a BOOL member listed BEFORE a visible non-BOOL member that covers its byte (code: bits win; reference:
+       the later host overwrites them — the two differ; no fixture or generated project has this order);
+     - hidden BOOL members (the code then demands a dict entry for a member the reference does not list);
+     - BYTE / WORD / LWORD bit-string members (DWORD / BOOL[32k] members ARE covered);
+     - string types whose LEN / DATA are not at offsets 0 / 4.
+   Hypotheses the clauses carry, and why they are hypotheses of THIS property rather than gaps:
+     - every write_correct_* clause: the target resolves the emitted request path to the wire location
+       [l] of the reference place (same instance, offset, type, remaining elements), and the parsed request
+       [q] is what _parse_tag_request yields.  Which bytes denote which tag is property C09 (paths) and
+       C01/C03 (request parsing), proved there against the same Spec/EPathParser / Spec/Expect; C02 starts
+       where the path has been resolved ("the addressed location").
+     - C02_value / C02_array / C02_struct for REAL: [denotes] relates the Python float b64 to the reference
+       binary32 by round32 b64 = Some b32.  That struct.pack('<f') IS this rounding is the codec property
+       (C06/C07, Model/CodecFloat.v against Flocq); C02 states "the encoding of the supplied value".
+     - C02_multi / C02_frag_transfer: no error injection pending, multi-service enabled (a configuration of
+       the reference target, not of the driver), and the connected-transport layer hands the data item to
+       the message router (C11 frames, C14 delivery).
+     - 0 <= sequence count, handle, element count < 65536: ranges of the UINT fields, true of every value
+       the driver produces (C17 for the counter; the upload for handles).
+   All of this is also exercised on the implementation by the oracle of harness/props/c02.py on every run. *)
 Theorem C02_partial : C02_proved.
 Proof.
   split; [exact rmw_effect|]. split; [exact C02_encode_value_holds|]. split; [exact C02_build_once_holds|].
@@ -390,7 +452,7 @@ Proof.
   split; [exact write_correct_value|]. split; [exact write_correct_array|]. split; [exact write_correct_string|].
   split; [exact write_correct_bool|]. split; [exact write_correct_bits|]. split; [exact write_correct_bools|].
   split; [exact write_correct_bool_element|]. split; [exact C02_frame_holds|].
-  split; [exact C02_multi_holds|]. split; [exact logix_write_cap_indep|]. split; [exact frag_transfer_correct|exact write_correct_struct].
+  split; [exact C02_multi_holds|]. split; [exact logix_write_cap_indep|]. split; [exact frag_transfer_correct|]. split; [exact write_correct_struct|]. split; [exact write_correct_struct_bytes|exact write_correct_slice].
 Qed.
 Print Assumptions C02_partial.
 
